@@ -311,11 +311,25 @@ TypeCases ==
                         attrs |-> <<>>] >>),
                       Xsd("v1.xsd", "Uv1", << <<"x", "Uv1">> >>, << Cx("OtherType", None, << El("otherValue", B("string"), 1, "1") >>, <<>>) >>),
                       Xsd("v2.xsd", "Uv2", << <<"x", "Uv2">> >>, << Cx("FarType", None, << El("farValue", B("string"), 1, "1") >>, <<>>) >>) >>,
+   \* XML scoping of prefixes: a component of an imported file and a component of the importer declare the SAME prefix
+   \* for different namespaces, each on the component itself
+   prefix_scoped |-> << Xsd("main.xsd", "Unear", << <<"t", "Unear">> >>,
+                    << Imp("Uv1", "v1.xsd"), Imp("Uv2", "v2.xsd"),
+                       [k |-> "complex", n |-> "FocusType", base |-> None, xmlns |-> << <<"n", "Uv2">> >>,
+                        content |-> << SeqP(1, "1", << El("subjectMember", T("n", "FarType"), 1, "1"), El("tailMember", B("boolean"), 0, "1") >>) >>,
+                        attrs |-> <<>>],
+                       [k |-> "complex", n |-> "LeafType", base |-> None, xmlns |-> << <<"n", "Uv1">> >>,
+                        content |-> << SeqP(1, "1", << El("leafItem", T("n", "OtherType"), 0, "1") >>) >>, attrs |-> <<>>] >>),
+                      Xsd("v1.xsd", "Uv1", << <<"x", "Uv1">> >>,
+                    << [k |-> "complex", n |-> "OtherType", base |-> None, xmlns |-> << <<"n", "Uv1">> >>,
+                        content |-> << SeqP(1, "1", << El("otherValue", B("string"), 1, "1"), El("midItem", T("n", "MidType"), 0, "1") >>) >>, attrs |-> <<>>],
+                       Cx("MidType", None, << El("baseItem", B("string"), 1, "1") >>, <<>>) >>),
+                      Xsd("v2.xsd", "Uv2", << <<"x", "Uv2">> >>, << Cx("FarType", None, << El("farValue", B("string"), 1, "1") >>, <<>>) >>) >>,
    keywords |-> << Xsd("main.xsd", "Unear", NearX,
                     << Cx("kw_self", None, << El("kw_type", B("string"), 1, "1"), El("kw_match", B("int"), 0, "1"), El("kw_async", B("string"), 0, "unb"),
                                               El("kw_crate", B("boolean"), 1, "1") >>,
                           << At("kw_self", B("string"), "opt") >>) >>) >>]
-TypeLabels == IF Tier = "quick" THEN {"builtins_req", "builtins_vec", "text_builtins", "positions", "extension_near", "extension_far", "extension_far_user", "two_foreign", "deep_shared", "homonym_default", "simple_restricted", "keywords", "three_ns", "sibling_collide"}
+TypeLabels == IF Tier = "quick" THEN {"builtins_req", "builtins_vec", "text_builtins", "positions", "extension_near", "extension_far", "extension_far_user", "two_foreign", "deep_shared", "homonym_default", "prefix_scoped", "simple_restricted", "keywords", "three_ns", "sibling_collide"}
               ELSE DOMAIN TypeCases
 
 \* ---- WSDL shapes
